@@ -20,6 +20,14 @@ def expected(kind, key, args):
         return ("val", (key, "spawned"))
     if kind == "raise":
         return ("exc", "ValueError", (key, "boom"), "_RemoteTraceback")
+    if kind in ("raise_badrepr_arg", "raise_badrepr_kwarg", "raise_badrepr_fn"):
+        return ("exc", "ValueError", (key, "boom"), "_RemoteTraceback")
+    if kind == "raise_badstr":
+        return ("exc", "SloppyError", (key,), "_RemoteTraceback")
+    if kind == "raise_unprintable":
+        return ("exc", "UnprintableError", (key,), "_RemoteTraceback")
+    if kind == "ok_badrepr_arg":
+        return ("val", (key, "ident"))
     if kind == "sysexit":
         return ("exc", "SystemExit", (3,), "_RemoteTraceback")
     if kind == "kbint":
@@ -435,6 +443,36 @@ def c10(rec):
                         out.append(dict(signature=f"C10:workers-restarted:{kept}vs{exp_kept}|cause={c}",
                                         msg=f"resize {len(o['pids_before'])}->{want} kept {kept} "
                                             f"of the previous workers instead of {exp_kept}"))
+    # an idle timer that fires at the instant "spawn" of the resize (while the resizing thread is
+    # inside the region the processes-management lock protects) is refused and re-armed: that
+    # worker is still there for as long as its new period has not elapsed
+    timeout = rec.prog.get("pool", {}).get("timeout")
+    # (only executions whose deviations are all timer firings: the worker then tests the lock at
+    # once; a preemption between the firing and the test may carry it past the release)
+    if timeout and not kill and not rec.policy.get("zero_when") \
+            and all(str(d[2]).startswith("timeout:") for d in rec.devs) \
+            and rec.prog["name"].startswith("grow-then-rest"):
+        last_t = {}
+        for ev in rec.trace:
+            if ev[0] == "T" and "worker" in ev[1] and len(ev) > 5:
+                last_t[ev[5]] = ev
+        last = None
+        for o in rec.ops:
+            if o["op"][0] == "reuse" and o["returned"] and o["exc"] is None and o.get("same") \
+                    and o.get("started_before", True) and not o["broken"]:
+                last = o
+            elif o["op"][0] == "probe" and o.get("value") and last is not None:
+                pv = o["value"]
+                for pid, ev in last_t.items():
+                    if ev[3] and pid in last["pids_before"] and pv["now"] < ev[4] + timeout \
+                            and pid not in pv.get("pids", []):
+                        out.append(dict(
+                            signature=f"C10:worker-left-after-timeout-during-spawn|cause={c}",
+                            msg=f"the idle timer of worker {pid} fired (t={ev[4]:.3f}) while the "
+                                f"resize to {last['op'][1].get('max_workers')} was spawning workers "
+                                f"(lock held: the worker must stay for another period of "
+                                f"{timeout}); at t={pv['now']:.3f} it is gone: pool {pv.get('pids')}, "
+                                f"previous {last['pids_before']}"))
     return out, _cls(rec)
 
 
@@ -664,7 +702,14 @@ def _c09_racing(rec, m, next_id, pool, post, c):
     if any(o["op"][0] in ("kill", "shutdown") for o in rec.ops if o["t"] != 0) or \
             any(o["op"][0] in ("kill", "shutdown") for o in post[:-1]):
         return []
-    dead = [(o["t"], o["op"][1], o["id"]) for o in calls if o.get("shutdown") or o.get("broken")]
+    # an explicit shutdown by the user that started before the call returned may legitimately
+    # land on the instance being handed out (the statement is about the call's beginning)
+    stops = [x.get("seq_start", 0) for x in rec.ops if x["op"][0] in ("shutdown", "kill", "with_exit")]
+    cb_stop = any(x["op"][0] in ("callback", "late_callback") and len(x["op"]) > 2 and str(x["op"][2]).startswith("shutdown")
+                  for x in rec.ops)
+    dead = [(o["t"], o["op"][1], o["id"]) for o in calls
+            if (o.get("shutdown") or o.get("broken")) and not cb_stop
+            and not any(st < o.get("seq_end", 0) for st in stops)]
     if dead:
         # get_reusable_executor holds the executor lock from its decision to its return: what
         # it hands out is alive at that moment, whoever replaces it afterwards
